@@ -102,6 +102,7 @@ package fasthttp
 //@   on call HostClient.CloseConn:
 //@     effect closed = closed + 1
 //@   on call newCloseReaderWithError:
+//@     requires[close-decision-captured] @C10 closeConn == (resetConnection || reqClose || respClose)
 //@     effect deferred = true
 //@   end
 //@   ensures[conn-accounted] @C04 acquired ==> (deferred ? released + closed == 0 : released + closed == 1)
